@@ -132,9 +132,11 @@ class Sum(Factory, Container):
             if not isinstance(q, numbers.Real):
                 raise TypeError(f"function return value ({q}) must be boolean or number")
 
+            increment = q * weight  # may raise (e.g. OverflowError for an int beyond the float range): before any update
+
             # no possibility of exception from here on out (for rollback)
             self.entries += weight
-            self.sum += q * weight
+            self.sum += increment
 
     def _numpy(self, data, weights, shape):
         q = self.quantity(data)
